@@ -17,7 +17,7 @@ import geom
 import interp
 import textc
 import vlib
-from checks.c02 import text_family
+from checks.c02 import text_family, root_document
 
 
 def run(rep, tier, seed):
@@ -39,6 +39,12 @@ def run(rep, tier, seed):
         cfg = dict(textc.CONFIGS[j % len(textc.CONFIGS)])
         cfg.update(cfg0)
         docs.append((f"wf:{c['src']}", xml, cfg))
+    # document shapes: prologs, kinds of children, root attributes
+    roots = text_family(rep, "root", [], 0)
+    if not big and len(roots) > 1500:
+        roots = rnd.sample(roots, 1500)
+    for j, c in enumerate(roots):
+        docs.append(("root:" + c["rootattrs"], root_document(c), dict(textc.CONFIGS[j % len(textc.CONFIGS)])))
     # programs of the Interp families (loops, reuse, scopes)
     for fam in ("loop", "reuse", "scope"):
         rr = vlib.run_tlc("MC_Interp", interp.mc_cfg(fam, export=True, MaxNodes=2 if fam == "loop" else 3), f"c05-{fam}", workers=8, timeout=600)
